@@ -34,6 +34,10 @@ def stages(tier, seed, bins):
                      outliers=rnd.choice([0, 0, 1, 2, 3]))
         if kind == "chain":
             c["grow"] = rnd.choice([1.0, 1.1, 1.3, 2.0])
+        if rnd.random() < 0.08:
+            # distances spanning more than twelve decades without ties (gaps growing by 1.5 over 70+ samples): the regime in which
+            # a tree-based search may switch to another code path (the cover tree gives up beyond 100 scale levels)
+            c.update(data="chain", grow=1.5, N=rnd.choice([70, 80, 100, 120]))
         if kind == "swiss":
             c["D"] = 3
         c["id"] = "g%d" % (len(cases) + 1)
